@@ -57,6 +57,9 @@ def _dg(c):
         return "(" + ",".join(_dg(x) for x in c) + ")"
     return repr(c)
 
+NEG_BLIND = frozenset(["core::f64::<impl f64>::classify", "libm::fabs", "core::f64::<impl f64>::abs", "std::f64::<impl f64>::abs", "core::f64::<impl f64>::is_nan",
+                       "core::f64::<impl f64>::is_finite", "core::f64::<impl f64>::is_infinite", "core::f64::<impl f64>::is_normal", "core::f64::<impl f64>::is_subnormal"])
+
 def neg(x):
     if tag(x) == "f" and x[1] == "neg":
         return x[2]
@@ -139,6 +142,34 @@ class Normalizer:
             z = zipped_table(a[2][0], a[2][1])
             if z is not None:
                 return z
+        if tg == "call" and len(a) == 3 and tag(a[2]) == "f" and a[2][1] == "neg" and a[1] in NEG_BLIND:
+            # negation flips the sign bit and nothing else: category, magnitude and the NaN / finite / infinite / normal predicates
+            # of -x are those of x
+            return self._node(("call", a[1], a[2][2]))
+        if tg == "call" and len(a) == 3 and tag(a[2]) == "f" and a[2][1] == "neg" and a[1] in ("core::f64::<impl f64>::is_sign_positive", "core::f64::<impl f64>::is_sign_negative"):
+            other = "core::f64::<impl f64>::is_sign_negative" if a[1].endswith("positive") else "core::f64::<impl f64>::is_sign_positive"
+            return self._node(("call", other, a[2][2]))
+        if tg == "i" and a[1] == "bitand" and len(a) == 5 and a[2] == "u64":
+            # a bit field of to_bits(-x) that leaves the sign bit out is that field of to_bits(x)
+            for fld, msk in ((a[3], a[4]), (a[4], a[3])):
+                if tag(msk) != "const":
+                    continue
+                sh = 0; w = fld
+                if tag(w) == "i" and w[1] == "shr" and len(w) == 5 and tag(w[4]) == "const":
+                    sh = w[4][2]; w = w[3]
+                if tag(w) == "call" and len(w) == 3 and w[1] == "core::f64::<impl f64>::to_bits" and tag(w[2]) == "f" and w[2][1] == "neg" \
+                        and sh < 64 and ((msk[2] << sh) >> 63) & 1 == 0:
+                    w2 = mk("call", w[1], w[2][2])
+                    fld2 = w2 if fld is w else mk("i", "shr", fld[2], w2, fld[4])
+                    return mk("i", "bitand", "u64", fld2, msk) if fld is a[3] else mk("i", "bitand", "u64", msk, fld2)
+        if tg == "cmp" and a[2] == "f64" and len(a) == 5:
+            # -x op c  <=>  x flipped-op -c  (exact: negation is an order-reversing bijection of the numbers, and NaN stays NaN)
+            x, y = a[3], a[4]
+            FL = {"lt": "gt", "gt": "lt", "le": "ge", "ge": "le", "eq": "eq", "ne": "ne"}
+            if tag(x) == "f" and x[1] == "neg" and tag(y) == "const" and a[1] in FL:
+                return self._node(("cmp", FL[a[1]], "f64", x[2], neg(y)))
+            if tag(y) == "f" and y[1] == "neg" and tag(x) == "const" and a[1] in FL:
+                return self._node(("cmp", FL[a[1]], "f64", neg(x), y[2]))
         if tg == "call" and self.opcomm and len(a) == 3:
             # sign queries: TwoFloat::is_sign_positive(x) is the sign bit of x.hi (checked by C06/R12d);
             # is_sign_negative is its complement
